@@ -399,6 +399,35 @@ def check_unique_insertion(chk):
                               "type of the same (case-insensitive) name arriving on this path is dropped or replaces the first "
                               "without any diagnostic" % (sf, ot, c.get("name")))
     chk.floor("G-UNIQ insertions into the type table", n, 1)
+    # one name scope per level: fields, groups and data of a level become members of one generated class, so their names
+    # are checked against ONE set - every call of the member-name check inside a function passes the same set variable
+    m = 0
+    for fn in gen.sbeppc_functions(f):
+        sf = short_fn(fn)
+        if not sf.startswith("schema_parser::"):
+            continue
+        sets = {}
+        for x in walk(fn["body"]):
+            c = x.get("callee") or {}
+            if c.get("name") != "throw_if_not_unique_member_name":
+                continue
+            a = x.get("args") or []
+            if not a:
+                continue
+            v = gen.strip(a[0])
+            sets.setdefault((v or {}).get("did", gen.expr_text(a[0], 0, fn)), []).append(x.get("l"))
+        if not sets:
+            continue
+        m += 1
+        key = "member-scope:%s" % sf
+        where = "%s:%s" % (rel(fn["file"]), fn["line"])
+        if len(sets) > 1:
+            chk.violation("G-UNIQ", key, where,
+                          "%s checks member names against %d different sets (calls at lines %s): a field, a group and a data member of "
+                          "one level may then share a name - they become members of the same generated class" % (sf, len(sets), sorted(sum(sets.values(), []))))
+        else:
+            chk.ok("G-UNIQ", key, {"calls": len(list(sets.values())[0]), "one_set": True}, nontrivial=True)
+    chk.floor("G-UNIQ member-name scopes", m, 1)
     return n
 
 
